@@ -71,7 +71,10 @@ impl Min<'_> {
 }
 
 pub fn minimise(case: &Case, class: &str) -> (Case, String, u64) {
-    let mut m = Min { class, steps: 0, best: case.clone(), detail: String::new(), limit: 30_000 };
+    // large inputs cost milliseconds per execution: bound the effort
+    let size = case.text.len().max(case.bytes.len());
+    let limit = if size > 200_000 { 300 } else if size > 20_000 { 3_000 } else { 30_000 };
+    let mut m = Min { class, steps: 0, best: case.clone(), detail: String::new(), limit };
     // Establish the detail (and confirm the failure replays from the recorded tape).
     if !m.try_case(case) {
         return (case.clone(), "(violation did not reproduce from the recorded tape; reported unminimised)".into(), m.steps);
